@@ -109,14 +109,14 @@ def verify_unit(args):
     return meta, [r.to_json() for r in results]
 
 
-def verify_family(famname, fuel=2, timeout=10000, jobs=None, only=None, refute_fuel=4):
+def verify_family(famname, fuel=2, timeout=10000, jobs=None, only=None, refute_fuel=4, serves=None):
     cset = load_family(famname)
     units = []
     for l in cset.lemmas:
         if not l.trusted:
             units.append((famname, 'lemma', l.name))
     for key, c in cset.fns.items():
-        if not c.trusted:
+        if not c.trusted and (serves is None or serves in c.serves):
             units.append((famname, 'function', key))
     if only:
         units = [u for u in units if only in u[2]]
